@@ -176,6 +176,52 @@ func TestC02_Positions(t *testing.T) {
 			}
 		}
 	}
+	// a truth-value predicate followed by an index array with repeated, negative
+	// and fractional positions: the second predicate works on the survivors
+	for length := 2; length <= 5; length++ {
+		items := make([]val.Value, length)
+		for i := range items {
+			items[i] = val.N(float64(10 * (i + 1)))
+		}
+		survivors := items[1:] // $ > 10
+		for _, idx := range [][]float64{{0, 0, 1}, {0, 0}, {1, 1, 0}, {0, 1, 1, 2}, {-1, -1}, {0, -1, 0}, {0.5, 0, 1.5}, {2, 0, 2}, {0, 0, 0, 0}, {1, 0}, {-2, 0, -2}} {
+			arr := ast.ArrN()
+			for _, p := range idx {
+				arr.C = append(arr.C, ast.NumN(p))
+			}
+			doc := val.O(map[string]val.Value{"x": val.A(items...)})
+			for _, hk := range []string{"name", "paren"} {
+				var head *ast.Node = ast.NameN("x")
+				if hk == "paren" {
+					head = ast.BlockN(ast.NameN("x"))
+				}
+				prog := ast.PredN(ast.PredN(head, ast.BinN(">", ast.VarN(""), ast.NumN(10))), arr)
+				if !check(prog, doc, fmt.Sprintf("stacked|%d|%v|%s", length, idx, hk), survivors, idx) {
+					return
+				}
+			}
+		}
+	}
+	// the bare context item as predicate: each item decides for itself
+	for _, items := range [][]val.Value{
+		{val.True, val.False, val.True}, {val.False, val.True}, {val.S(""), val.S("x"), val.S(""), val.S("y")}, {val.S("x"), val.S("")},
+		{val.N(3), val.N(1), val.N(0), val.N(3)}, {val.N(0), val.N(0)}, {val.N(1), val.N(1)}, {val.True, val.S(""), val.S("s"), val.False},
+	} {
+		doc := val.O(map[string]val.Value{"x": val.A(items...)})
+		for _, prog := range []*ast.Node{ast.PredN(ast.NameN("x"), ast.VarN("")), ast.PredN(ast.BlockN(ast.NameN("x")), ast.VarN("")), ast.PredN(ast.PathN(ast.VarN("$"), ast.NameN("x")), ast.VarN(""))} {
+			c := mkDiff(prog, doc, true)
+			p, r, m, skip := diffRun(c)
+			n++
+			if skip {
+				continue
+			}
+			rec.Case("self|"+c.Text+"|"+c.Input, true, diffSample(c, p))
+			_ = r
+			if m != "" && rec.FailNow(c, m) >= 8 {
+				return
+			}
+		}
+	}
 	rec.Exhaustive("positions_x_lengths_x_heads_x_modes", n)
 	rec.AllExhaustive()
 }
